@@ -179,7 +179,7 @@ def run(res, pid, extra_targets=()):
             rp["ops_prefix"] = save_prefix(line=diffs[0]["line"])
         res.violation("tie-or-proof-broken", " | ".join(broken)[:1500], rp, found_input=False)
     res.assumptions += [
-        "server role, threadless mode (CS104_Slave_tick); the threaded server loop and the client role are not covered by this check",
+        "server role, threadless mode (CS104_Slave_tick); client role (C03/C04/C05/C11/C18 only): real cs104_connection.c with its thread run as a cooperative fiber vs Iec.Cli104; the threaded server loop is not covered by this check",
         "sockets, clock, semaphores are the simulated HAL (harness/simhal.c); a read never crosses a chunk boundary",
         "ASDU dispatch to the typed command handlers is excluded here (generic ASDU handler only; see C09)",
         "k-buffer ring indices and queue pointers are tied by dumping the real structures after every operation",
